@@ -34,7 +34,7 @@ def gen_bayes(seed, tier):
     Dw = r.integers(1, 6 if big else 4)
     Dy = r.integers(1, 4 if big else 3)
     N = r.integers(1, 12 if big else 6)
-    cond_cls = r.wchoice(["general", "diag", "identity", "identitydiag"], [5, 2, 1.5, 1.5])
+    cond_cls = r.wchoice(["general", "diag", "identity", "identitydiag", "nn"], [5, 2, 1.5, 1.5, 1.5])
     if cond_cls.startswith("identity"):
         Dy = Dw
     cmax = 10 ** r.uniform(0.3, 2.5)
@@ -48,6 +48,16 @@ def gen_bayes(seed, tier):
     if cond_cls.startswith("identity"):
         m["M"] = np.tile(np.eye(Dw)[None], (N, 1, 1))
         m["b"] = np.zeros((N, Dy))
+    elif cond_cls == "nn":
+        # likelihood p(y_i | w, u_i) = N(M(u_i) w + b(u_i), Sigma) with one shared covariance (notebook idiom)
+        Du = r.integers(1, 3)
+        m["nn_W"] = r.normal((Du, Dy * (Dw + 1)), 0.8)
+        m["nn_c"] = r.normal((Dy * (Dw + 1),), 0.5)
+        m["U"] = r.normal((N, Du), 1.0)
+        out = np.tanh(m["U"] @ m["nn_W"] + m["nn_c"])
+        m["M"] = out[:, : Dy * Dw].reshape(N, Dy, Dw)
+        m["b"] = out[:, Dy * Dw:]
+        m["Sigma"] = np.tile(m["Sigma"][:1], (N, 1, 1))
     else:
         m["M"] = r.normal((N, Dy, Dw), 0.8)
         m["b"] = r.normal((N, Dy), 0.8)
@@ -198,9 +208,15 @@ def ref_kalman(m):
 # execution against the library
 
 
-def _cond(cls, Mm, b, Sg):
+def _cond(cls, Mm, b, Sg, m=None):
     L = lib()
     jnp, C = L["jnp"], L["conditional"]
+    if cls == "nn":
+        W, c = jnp.asarray(A(m["nn_W"])), jnp.asarray(A(m["nn_c"]))
+        Dy, Dw = A(Mm).shape[1], A(Mm).shape[2]
+        nn = C.NNControlGaussianConditional(Sigma=jnp.asarray(A(Sg)[:1]), num_cond_dim=int(Dw), num_control_dim=int(W.shape[0]),
+                                            control_func=lambda u: jnp.tanh(u @ W + c))
+        return nn.set_control_variable(jnp.asarray(A(m["U"])))
     if cls == "identity":
         return C.ConditionalIdentityGaussianPDF(Sigma=jnp.asarray(Sg))
     if cls == "identitydiag":
@@ -248,7 +264,7 @@ def run_bayes(m, sch, w):
     jnp = L["jnp"]
     N, Dy, Dw = A(m["M"]).shape
     prior = _prior(m["prior_cls"], m["m0"], m["S0"])
-    cond = _cond(m["cond_cls"], m["M"], m["b"], m["Sigma"])
+    cond = _cond(m["cond_cls"], m["M"], m["b"], m["Sigma"], m)
     y = A(m["y"])
     if sch.get("one_shot") and sch.get("style") == "incremental":
         un = prior
@@ -508,7 +524,9 @@ def minimise(record, budget=60):
             idx = sorted(perm[:keep])
             remap = {o: n for n, o in enumerate(idx)}
             mm = copy.deepcopy(m)
-            for k in ("M", "b", "Sigma", "y"):
+            for k in ("M", "b", "Sigma", "y", "U"):
+                if m.get(k) is None:
+                    continue
                 mm[k] = A(m[k])[idx]
             cand["model"] = util.to_jsonable(mm)
             cand["schedule"]["perm"] = [remap[i] for i in perm[:keep]]
@@ -523,7 +541,9 @@ def minimise(record, budget=60):
         for keep in range(1, N):
             cand = copy.deepcopy(best)
             mm = copy.deepcopy(m)
-            for k in ("M", "b", "Sigma", "y"):
+            for k in ("M", "b", "Sigma", "y", "U"):
+                if m.get(k) is None:
+                    continue
                 mm[k] = A(m[k])[:keep]
             cand["model"] = util.to_jsonable(mm)
             v = fails(cand)
